@@ -462,8 +462,9 @@ class DynSched:
     A running thread that sleeps in the kernel without consuming CPU (e.g. a blocking `flock` on a file
     another call holds) is set aside as `blocked` so that the call it waits for can go on."""
 
-    def __init__(self, seed, snapshot, nthreads=2):
+    def __init__(self, seed, snapshot, nthreads=2, script=()):
         self.rng = random.Random(seed)
+        self.script = list(script)      # forced first choices (thread ids), then the PRNG decides
         self.snapshot = snapshot
         self.cv = threading.Condition()
         self.pending, self.running, self.live = {}, None, set(range(nthreads))
@@ -476,7 +477,12 @@ class DynSched:
     def _grant(self):
         active = self.live - self.blocked
         if self.running is None and active and all(i in self.pending for i in active):
-            self.running = self.rng.choice(sorted(active))
+            pick = self.rng.choice(sorted(active))
+            if self.script:
+                forced = self.script.pop(0)
+                if forced in active:
+                    pick = forced
+            self.running = pick
             self.watch = None
             self.cv.notify_all()
 
@@ -616,11 +622,13 @@ class OsProxy:
         return val
 
 
-def run_schedule(ctx, bench, seed, f0, drv):
-    """Two transfer_model calls on the bench's folder, interleaved by a seeded scheduler."""
+def run_schedule(ctx, bench, seed, f0, drv, script=()):
+    """Two transfer_model calls on the bench's folder, interleaved by a seeded scheduler (`script`: forced
+    first choices, e.g. [0, 0, 1] = call 0 loads, call 0 opens the file, call 1 loads while call 0 holds it)."""
     api, w = bench.api, bench.w
     f0kind = None if f0 is None else "complete" if f0 == bench.B else "prefix:%d" % len(f0) if bench.B.startswith(f0) else "garbage"
-    case = {"stream": "interleave", "text": bench.text, "opts": bench.opts, "sched_seed": seed, "f0": f0kind}
+    case = {"stream": "interleave", "text": bench.text, "opts": bench.opts, "sched_seed": seed, "f0": f0kind,
+            "script": list(script)}
     bench.clean_folder()
     path = w.cache_path()
     if f0 is not None:
@@ -633,7 +641,7 @@ def run_schedule(ctx, bench, seed, f0, drv):
                 return f.read()
         except FileNotFoundError:
             return None
-    sched = DynSched(seed, snapshot)
+    sched = DynSched(seed, snapshot, script=script)
     tl = threading.local()
     orig_load = api.load_model       # the CacheWorld spy
     real_os = api.os
@@ -681,7 +689,7 @@ def run_schedule(ctx, bench, seed, f0, drv):
     case["acts"] = acts
     opens = sum(1 for a in acts if a[0] in ("open", "tmp-open"))
     ctx.case({"stream": "interleave", "acts": len(acts), "opens": opens, "f0": f0kind}, nontrivial=opens == 2 or f0 is not None,
-             key=["sched", bench.text, seed, f0kind])
+             key=["sched", bench.text, seed, f0kind, list(script)])
     ctx.count("schedule:" + ("two-writers" if opens == 2 else "one-writer" if opens == 1 else "no-writer"))
     ctx.count("schedule-f0:" + str(f0kind).split(":")[0])
     if sched.error:
@@ -1039,7 +1047,17 @@ def run(ctx):
             for at, k in (olds if b is benches[0] or not quick else olds[:2]):
                 if not b.interruption(at, drv, at_bytes=k, start_old=True):
                     return
-        # ---- interleavings ----------------------------------------------------------------------------------
+        # ---- interleavings: first the fixed ones of every run (independent of the seed): a reader that loads
+        # while the writer holds the file open (right after its open, after a first piece, the other way round,
+        # and over an incomplete cache), and two overlapping writers ------------------------------------------
+        b0 = benches[0]
+        if b0.deterministic:
+            for script, f0 in [([0, 0, 1], None), ([0, 0, 0, 1], None), ([1, 1, 0], None), ([0, 0, 1], b0.B[:len(b0.B) // 2]),
+                               ([0, 1, 0, 1, 0, 1], None), ([0, 0, 1, 1, 1], b0.B[:7])]:
+                ctx.count("schedule:fixed")
+                run_schedule(ctx, b0, 12345, f0, drv, script=script)
+                if ctx.violations:
+                    return
         for j, (b, seed, f0) in enumerate(scheds):
             if ctx.time_left() < (20 if quick else 200):
                 ctx.notes.append("interleavings stopped by the time budget after %d of %d" % (j, nint))
@@ -1123,7 +1141,7 @@ def replay(ctx, payload):
         elif c["stream"] == "interleave":
             f0 = None if c["f0"] is None else b.B if c["f0"] == "complete" else b"\x80\x05garbage-not-a-pickle" \
                 if c["f0"] == "garbage" else b.B[:int(c["f0"].split(":")[1])]
-            run_schedule(ctx, b, c["sched_seed"], f0, drv)
+            run_schedule(ctx, b, c["sched_seed"], f0, drv, script=c.get("script", ()))
         elif c["stream"] == "torn-nonprefix":
             # pickle bytes vary between processes (set order): retry the recorded offset, then scan for the class of input
             B2 = other_cache(b)
